@@ -120,7 +120,7 @@ def is_sym(x):
         return any(is_sym(e) for e in x)
     if isinstance(x, dict):
         return any(is_sym(e) for e in x.values())
-    return getattr(x, '_pyvc_symbolic', False)
+    return bool(getattr(x, '_pyvc_symbolic', False))
 
 
 def kind_of(x):
@@ -446,6 +446,8 @@ class Interp(object):
             raise Unsupported(f'assignment target {type(target).__name__}')
 
     def setitem(self, obj, key, v, node):
+        if hasattr(obj, 'sym_setitem'):
+            return obj.sym_setitem(self, key, v, node)
         if isinstance(obj, (list, dict)) and not is_sym(key):
             obj[key] = v
             return
@@ -488,6 +490,25 @@ class Interp(object):
             raise Unsupported('raise of non-exception')
         raise Raised(e, s)
 
+    def stmt_Delete(self, s, frame):
+        for t in s.targets:
+            if isinstance(t, ast.Subscript):
+                obj = self.eval(t.value, frame)
+                key = self.eval(t.slice, frame)
+                if hasattr(obj, 'sym_delitem'):
+                    obj.sym_delitem(self, key, t)
+                elif not is_sym(key) and isinstance(obj, (dict, list)):
+                    try:
+                        del obj[key]
+                    except Exception as ex:
+                        raise Raised(ex, s)
+                else:
+                    raise Unsupported('del on symbolic container')
+            elif isinstance(t, ast.Name):
+                frame.locals.pop(t.id, None)
+            else:
+                raise Unsupported('del target')
+
     def stmt_FunctionDef(self, s, frame):
         frame.locals[s.name] = Closure(s, frame, None, s.name)
 
@@ -520,7 +541,7 @@ class Interp(object):
         while True:
             c = self.eval(s.test, frame)
             if is_sym(c):
-                raise Unsupported('while with symbolic condition needs an invariant')
+                return self.symbolic_while(s, frame, c)
             if not c:
                 break
             n += 1
@@ -534,6 +555,9 @@ class Interp(object):
                 continue
         self.exec_block(s.orelse, frame)
 
+    def symbolic_while(self, s, frame, first_cond):
+        raise Unsupported('while with symbolic condition needs an invariant')
+
     def stmt_For(self, s, frame):
         it = s.iter
         # range(N) with symbolic N -> loop summarisation
@@ -545,6 +569,8 @@ class Interp(object):
             seq = range(n)
         else:
             seq = self.eval(it, frame)
+            if hasattr(seq, 'sym_iter'):
+                return seq.sym_iter(self, s, frame)
             if isinstance(seq, SV) or isinstance(seq, PatStr):
                 raise Unsupported('iteration over symbolic value')
         hook = self.concrete_loop_hook(s, seq, frame)
@@ -839,6 +865,14 @@ class Interp(object):
     def expr_Lambda(self, e, frame):
         return Closure(e, frame, None, '<lambda>')
 
+    def expr_Yield(self, e, frame):
+        v = self.eval(e.value, frame) if e.value is not None else None
+        self.on_yield(v, e, frame)
+        return None
+
+    def on_yield(self, v, node, frame):
+        raise Unsupported('yield')
+
     def expr_IfExp(self, e, frame):
         if self.truth(self.eval(e.test, frame), e.test):
             return self.eval(e.body, frame)
@@ -1006,6 +1040,8 @@ class Interp(object):
         raise Unsupported(f'truth of {k}')
 
     def truth(self, v, node):
+        if hasattr(v, 'sym_truth'):
+            v = v.sym_truth(self, node)
         if isinstance(v, SV):
             where = f'{getattr(node, "lineno", 0)}:{getattr(node, "col_offset", 0)}'
             return self.run.branch(self.truth_term(v), where=where)
@@ -1037,11 +1073,16 @@ class Interp(object):
         return result
 
     def compare(self, op, a, b, node):
-        if not is_sym(a) and not is_sym(b):
+        if not is_sym(a) and not is_sym(b) and not hasattr(b, 'sym_contains'):
             try:
                 return _CONC_CMP[type(op)](a, b)
             except Exception as ex:
                 raise Raised(ex, node)
+        if isinstance(op, (ast.In, ast.NotIn)) and hasattr(b, 'sym_contains'):
+            r = b.sym_contains(self, a, node)
+            if isinstance(op, ast.NotIn):
+                return SV('bool', z3.Not(r.t)) if isinstance(r, SV) else (not r)
+            return r
         if isinstance(op, (ast.In, ast.NotIn)):
             if isinstance(b, (list, tuple, set, frozenset, dict)):
                 # membership in a list that deliberately mixes enumeration classes is fine as long as
@@ -1126,6 +1167,8 @@ class Interp(object):
             except Exception as ex:
                 raise Raised(ex, e)
         key = self.eval(e.slice, frame)
+        if hasattr(obj, 'sym_getitem'):
+            return obj.sym_getitem(self, key, e)
         r = self.getitem_hook(obj, key, e)
         if r is not NotImplemented:
             return r
@@ -1154,7 +1197,7 @@ class Interp(object):
         r = self.getattr_hook(obj, e.attr, e)
         if r is not NotImplemented:
             return r
-        if isinstance(obj, (SV, PatStr)):
+        if isinstance(obj, (SV, PatStr)) or hasattr(obj, 'sym_method'):
             return BoundSym(obj, e.attr)
         try:
             return getattr(obj, e.attr)
@@ -1292,6 +1335,8 @@ class Interp(object):
         return self.str_concat(parts) if parts else ''
 
     def sym_method(self, obj, attr, args, kwargs, node):
+        if hasattr(obj, 'sym_method'):
+            return obj.sym_method(self, attr, args, kwargs, node)
         if isinstance(obj, SV) and obj.kind == 'str':
             if attr in ('upper', 'lower', 'strip') and not args:
                 f = z3.Function(f'str_{attr}', z3.StringSort(), z3.StringSort())
@@ -1401,6 +1446,8 @@ def _b_bool(self, args, kwargs, node):
 
 def _b_len(self, args, kwargs, node):
     v = args[0]
+    if hasattr(v, 'sym_len'):
+        return v.sym_len(self, node)
     if isinstance(v, SV) and v.kind == 'str':
         return SV('int', z3.Length(v.t))
     if isinstance(v, (list, tuple, dict)):
